@@ -105,6 +105,10 @@ func OpParams(op *Op) ([]ParamDecl, []string) {
 				pd.Form = "schema-ref"
 			}
 			rs = d.ResolveSchema(rs.Items)
+			// (arrays of arrays: only the kitchen sink has them; the lexemes are those of the innermost items)
+			for rs != nil && rs.Type == "array" {
+				rs = d.ResolveSchema(rs.Items)
+			}
 		}
 		if rs == nil {
 			unmapped = append(unmapped, "parameter "+r.Name+": unresolved schema")
